@@ -6,6 +6,7 @@ CONSTANTS
   Cap = 1
   DropParentCloseW = FALSE
   FailAt = 0
+  LateFail = "clean"
   HereAt = 1
   HereUnits = 2
   SigpipeMode = "ignored"
